@@ -1,3 +1,71 @@
+"""C14 - multi-BC drag models realise the interpolated BC and leave inputs intact."""
 LEVEL = 'proof'
-EXPLANATION = 'C14'
-EXTRA = []
+EXPLANATION = ('linear_interpolation under contract (two nested loops with invariants; result = clamped piecewise-linear '
+               'interpolant of ascending nodes at every query point, opaque predicate pl_points_ok revealed where needed). '
+               'DragModelMultiBC for 1 and 2 BC points in every given order (instances) and any table: the model keeps the '
+               'table\'s Mach nodes, and at every node standard CD x model BC / model CD equals the interpolated BC of the given '
+               'points (clamped outside); with a single point it equals the plain single-BC model. BCPoint.__init__: Mach given '
+               'or velocity / standard sea-level speed of sound, exactly one of them, BC > 0. Frames: the table rows and the '
+               'BC points passed in are not modified and the caller\'s list is not re-ordered (the in-place division and sort '
+               'repaired in 2cdb449 are these frame obligations); make_data_points builds fresh points.')
+import time  # noqa: E402
+
+NOT_DECIDED = ['3 or more BC points, and two points together with a sectional-density model BC: the interpolation contract is '
+               'for any number of nodes, but the constructor instances stop at 2 points (the sort is modelled per instance as '
+               'an explicit permutation; one nonlinear step is left unknown by z3/cvc5 with sectional density): bounded stand-in']
+EXTRA = ['bounded_multibc']
+
+
+def bounded_multibc(tier, seed):
+    """2-6 BC points in random order, by Mach or by velocity, with and without weight/diameter, on the shipped tables"""
+    import copy
+    import random
+    from pyvc.bounded import pkg, mk
+    from pyvc.scan import result
+    P = pkg()
+    from py_ballisticcalc.drag_model import BCPoint, DragModelMultiBC, make_data_points
+    rng = random.Random(1400 + seed)
+    t0 = time.time()
+    bad = None
+    cases = 0
+    for k in range(12 if tier == 'quick' else 80):
+        table = rng.choice([P.TableG1, P.TableG7, P.TableG2, P.TableRA4])
+        n = rng.choice([1, 2, 3, 4, 6])
+        machs = sorted(rng.sample([0.4, 0.7, 0.9, 1.0, 1.2, 1.6, 2.0, 2.5, 3.0, 4.0], n))
+        bcs = [rng.uniform(0.15, 0.6) for _ in machs]
+        pts = [BCPoint(b, Mach=m) if rng.random() < 0.5 else BCPoint(b, V=P.Unit.MPS(m * 340.0)) for b, m in zip(bcs, machs)]
+        pm = sorted((p.Mach, p.BC) for p in pts)
+        rng.shuffle(pts)
+        wd = (P.Unit.Grain(168), P.Unit.Inch(0.308)) if k % 3 == 0 else (0, 0)
+        table_before, pts_before = copy.deepcopy(table), [(p.BC, p.Mach) for p in pts]
+        ids = [id(p) for p in pts]
+        dm = DragModelMultiBC(pts, table, *wd)
+        dm2 = DragModelMultiBC(pts, table, *wd)
+        cases += 1
+        if table != table_before or [(p.BC, p.Mach) for p in pts] != pts_before or [id(p) for p in pts] != ids:
+            bad = f'case {k}: the table or the BC points passed in were modified / re-ordered'
+        if [(p.Mach, p.CD) for p in dm.drag_table] != [(p.Mach, p.CD) for p in dm2.drag_table] or dm.BC != dm2.BC:
+            bad = f'case {k}: building twice gives different models'
+        std = make_data_points(table)
+        for s, p in zip(std, dm.drag_table):
+            m = s.Mach
+            if m <= pm[0][0]:
+                want = pm[0][1]
+            elif m >= pm[-1][0]:
+                want = pm[-1][1]
+            else:
+                j = max(i for i in range(len(pm)) if pm[i][0] <= m)
+                (m0, b0), (m1, b1) = pm[j], pm[min(j + 1, len(pm) - 1)]
+                want = b0 if m1 == m0 else b0 + (b1 - b0) * (m - m0) / (m1 - m0)
+            eff = s.CD * dm.BC / p.CD
+            if p.Mach != m or abs(eff - want) > 1e-9 * want:
+                bad = f'case {k}: effective BC at Mach {m} is {eff}, interpolated BC of the points is {want} (points {pm})'
+                break
+        if n == 1 and wd == (0, 0):
+            plain = P.DragModel(bcs[0], table)
+            if any(abs(a.CD / dm.BC - b.CD / plain.BC) > 1e-12 * b.CD / plain.BC for a, b in zip(dm.drag_table, plain.drag_table)):
+                bad = f'case {k}: single-point model differs from the plain single-BC model'
+    return result('bounded:multibc', [mk('effective-bc-is-the-interpolant-inputs-intact-for-up-to-6-points', bad is None,
+                  'random BC points (1-6, shuffled, by Mach or velocity, with/without sectional density) on shipped tables: '
+                  'effective BC at every table node = clamped linear interpolant (1e-9), inputs untouched, rebuilt model equal, '
+                  'single point = plain model', cases, t0, bad)], t0, props=('C14',))
